@@ -373,10 +373,10 @@ func (e *codecEnv) runStorableSlabInlinedProgram(rng *rand.Rand, emit bool) {
 }
 
 func (e *codecEnv) runStorableSlabPrograms(rng *rand.Rand, emit bool) {
-	e.prog = 450
+	e.prog = 470
 	e.runStorableSlabLimitProgram(rng, emit)
 	e.st.Programs++
-	e.prog = 451
+	e.prog = 471
 	e.runStorableSlabInlinedProgram(rng, emit)
 	e.st.Programs++
 	e.step = 0
